@@ -795,3 +795,71 @@ Proof.
   pose proof (relabel_copy_attrs g m n ND I) as R. unfold node_na in R. unfold node_get.
   destruct (gfind (map_get m (nk n)) (relabel_copy g m)); cbn in R; [|discriminate]. now inversion R.
 Qed.
+
+(** ------------------------------------------------------------------ written order versus key order *)
+(** general form of [class_iff_wrong]: kb1 = the first ligand's KEY is smaller than its anchor's (what the
+    table tests), wb1 / wb2 = the ligands are WRITTEN before their anchors (what the marks mean).  For a
+    ligand in its anchor's fragment kb = wb; for a marked substituent cut off from its anchor kb depends on
+    the order in which the base graph lists the two fragments. *)
+Theorem table_vs_geom kb1 wb1 wb2 t1 t2 : is_tok t1 = true -> is_tok t2 = true ->
+  table kb1 t1 t2 =
+  class_val (if table_broken kb1 wb1 wb2 then negb (geom_cis wb1 t1 wb2 t2) else geom_cis wb1 t1 wb2 t2).
+Proof.
+  intros T1 T2. destruct (is_tok_cases _ T1) as [-> | ->], (is_tok_cases _ T2) as [-> | ->];
+  destruct kb1, wb1, wb2; reflexivity.
+Qed.
+
+(** the conflict test is a test on the two flags "key smaller than the anchor's" *)
+Lemma conflict_check_flags a x y : s_lig x <> a -> s_lig y <> a ->
+  conflict_check a [x; y] =
+  if conflict_free (s_lig x <? a) (s_lig y <? a) (s_tok x) (s_tok y) then Ok tt else Err EValue.
+Proof.
+  intros Nx Ny. unfold conflict_check, conflict_free.
+  assert (Gx : (a <? s_lig x) = negb (s_lig x <? a)).
+  { destruct (s_lig x <? a) eqn:E; cbn; [apply Z.ltb_ge; apply Z.ltb_lt in E; lia|apply Z.ltb_lt; apply Z.ltb_ge in E; lia]. }
+  assert (Gy : (a <? s_lig y) = negb (s_lig y <? a)).
+  { destruct (s_lig y <? a) eqn:E; cbn; [apply Z.ltb_ge; apply Z.ltb_lt in E; lia|apply Z.ltb_lt; apply Z.ltb_ge in E; lia]. }
+  rewrite Gx, Gy. destruct (s_lig x <? a), (s_lig y <? a), (pyval_eqb (s_tok x) (s_tok y)); reflexivity.
+Qed.
+Lemma conflict_free_flip b1 b2 t1 t2 : conflict_free (negb b1) b2 t1 t2 = negb (conflict_free b1 b2 t1 t2).
+Proof. unfold conflict_free. destruct b1, b2, (pyval_eqb t1 t2); reflexivity. Qed.
+(** marks that are consistent AS WRITTEN are rejected as soon as exactly one of the two ligands has its
+    key on the other side of the anchor than where it was written *)
+Theorem conflict_spurious a x y wbx wby : s_lig x <> a -> s_lig y <> a ->
+  conflict_free wbx wby (s_tok x) (s_tok y) = true ->
+  xorb (negb (Bool.eqb (s_lig x <? a) wbx)) (negb (Bool.eqb (s_lig y <? a) wby)) = true ->
+  conflict_check a [x; y] = Err EValue.
+Proof.
+  intros Nx Ny C X. rewrite conflict_check_flags by assumption. unfold conflict_free in *.
+  destruct (s_lig x <? a), (s_lig y <? a), wbx, wby, (pyval_eqb (s_tok x) (s_tok y)); cbn in *; congruence.
+Qed.
+Theorem conflict_agrees a x y wbx wby : s_lig x <> a -> s_lig y <> a ->
+  xorb (negb (Bool.eqb (s_lig x <? a) wbx)) (negb (Bool.eqb (s_lig y <? a) wby)) = false ->
+  conflict_check a [x; y] = if conflict_free wbx wby (s_tok x) (s_tok y) then Ok tt else Err EValue.
+Proof.
+  intros Nx Ny X. rewrite conflict_check_flags by assumption. unfold conflict_free in *.
+  destruct (s_lig x <? a), (s_lig y <? a), wbx, wby, (pyval_eqb (s_tok x) (s_tok y)); cbn in *; congruence.
+Qed.
+
+(** refutations for a cut-off marked substituent: the same fragments, the base graph listing them in the
+    other order, give (1) the opposite class, (2) a ValueError *)
+Theorem cutoff_order_refuted :
+  exists g1 g2 iso r1 r2,
+    wf_graphb g1 = true /\ wf_graphb g2 = true /\ same_marked_moleculeb iso g1 g2 = true /\
+    annotate_ez_isomers_cgsmiles g1 = Ok r1 /\ annotate_ez_isomers_cgsmiles g2 = Ok r2 /\
+    in_class g1 = false /\ in_class g2 = false /\
+    exists l1 a1 a2 l2,
+      In (ez_tuple l1 a1 a2 l2 v_trans) (ez_list r1 l1) /\
+      In (ez_tuple (iso l1) (iso a1) (iso a2) (iso l2) v_cis) (ez_list r2 (iso l1)).
+Proof.
+  exists w2_AB, w2_BA, w2_iso. eexists. eexists.
+  repeat (split; [vm_compute; reflexivity|]).
+  exists 0, 1, 3, 4. split; vm_compute; left; reflexivity.
+Qed.
+Theorem cutoff_conflict_refuted :
+  exists g1 g2 iso r1,
+    wf_graphb g1 = true /\ wf_graphb g2 = true /\ same_marked_moleculeb iso g1 g2 = true /\
+    annotate_ez_isomers_cgsmiles g1 = Ok r1 /\ annotate_ez_isomers_cgsmiles g2 = Err EValue.
+Proof.
+  exists w3_AB, w3_BA, w2_iso. eexists. repeat (split; [vm_compute; reflexivity|]). vm_compute. reflexivity.
+Qed.
